@@ -95,6 +95,15 @@ def flavours():
     add('anon-ecdh-nomutual', client_kind='anon', skw=dict(anon=True),
         cset=dict(maxVersion=(3, 3), keyExchangeNames=['ecdh_anon'], eccCurves=['secp521r1'], keyShares=[]),
         sset=dict(maxVersion=(3, 3), keyExchangeNames=['ecdh_anon'], eccCurves=['secp256r1'], keyShares=[]))
+    # more certificate key families (peer-chosen signature algorithm ids x local key types)
+    add('tls12-ecdhe-ed25519', skw=dict(cred='ed25519'), cset=dict(maxVersion=(3, 3)))
+    add('tls12-ecdhe-rsapss', skw=dict(cred='rsapss'), cset=dict(maxVersion=(3, 3)))
+    add('tls12-clientauth-ecdsa', ckw=dict(cred='client-ecdsa'), skw=dict(cred='rsa', reqCert=True), cset=dict(maxVersion=(3, 3)))
+    add('tls12-clientauth-ed25519', ckw=dict(cred='client-ed25519'), skw=dict(cred='rsa', reqCert=True),
+        cset=dict(maxVersion=(3, 3)))
+    add('tls12-clientauth-dsa', ckw=dict(cred='client-dsa'), skw=dict(cred='rsa', reqCert=True), cset=dict(maxVersion=(3, 3)))
+    add('tls13-ed25519', skw=dict(cred='ed25519'))
+    add('tls13-clientauth-ed25519', ckw=dict(cred='client-ed25519'), skw=dict(cred='rsa', reqCert=True))
     # TLS 1.3 post-handshake authentication: the server requests the client's certificate after the handshake
     add('tls13-pha', ckw=dict(cred='client-rsa'), skw=dict(cred='rsa'), post='pha-request')
     return F
@@ -409,6 +418,7 @@ def _run_case(case, fl, rng, mem, collect):
 
     meter = Meter(mem)
     socks = (pair.csock, pair.ssock)
+    _PROGRESS[0] = lambda: (len(pair.csock.sent_log), len(pair.csock.inbuf), len(pair.ssock.sent_log), len(pair.ssock.inbuf))
     closed_peer = [False]
 
     def on_idle():
@@ -509,7 +519,7 @@ def _run_case(case, fl, rng, mem, collect):
     # ---- oracle
     P = out['problems']
     if cls[0] == 'Other':
-        P.append(('crash:%s:%s:%s' % (cls[1], out['site'][0], _norm(out['site'][1])),
+        P.append((crash_key(exc),
                   'undocumented exception %s: %s (in %s: `%s`)' % (cls[1], cls[2], out['site'][0], out['site'][1])))
     elif cls[0] == 'Deadlock':
         P.append(('hang:%s' % fl['name'], 'call does not end after the peer closed its socket (%s)' % cls[1]))
@@ -569,6 +579,24 @@ def _run_case(case, fl, rng, mem, collect):
                           'protocol violation reported as %s without a fatal alert on the wire (raised in %s: `%s`)'
                           % (type(exc).__name__, out['site'][0], out['site'][1])))
     return out
+
+
+def context_function(exc):
+    """the protocol-level function in which the failure surfaced: innermost frame that lives in tlsconnection.py or
+    tlsrecordlayer.py (so that the same helper failing under the TLS 1.3 client and under the TLS 1.2 server are
+    different findings)"""
+    for filename, name, line in reversed(_frames(exc)):
+        if filename.endswith(('tlslite/tlsconnection.py', 'tlslite/tlsrecordlayer.py')):
+            return name
+    return None
+
+
+def crash_key(exc):
+    """stable key of an undocumented exception: class, context function > function that raised, source line"""
+    fn, line = innermost_tlslite_frame(exc)
+    ctx = context_function(exc)
+    where = fn if (ctx is None or ctx == fn) else '%s>%s' % (ctx, fn)
+    return 'crash:%s:%s:%s' % (type(exc).__name__, where, _norm(line))
 
 
 def hang_frame(exc):
@@ -698,6 +726,27 @@ def apply_msg_mutation(msg, mut, rng):
         else:
             body = u24(len(der) + 3) + u24(len(der)) + der
         return [RawMsg(22, hs_wrap(11, body))], 'hs11:cert-der:%s' % mut[3]
+    if name == 'set-sigalg' and ct == 22 and len(data) >= 6 and data[0] in (12, 15):
+        # the SignatureAndHashAlgorithm / SignatureScheme field of a CertificateVerify or (TLS 1.2) ServerKeyExchange
+        body = bytearray(data[4:])
+        off = None
+        if data[0] == 15:
+            off = 0
+        elif body[0] == 3 and len(body) > 4:                       # ECDHE: curve_type, named_curve, point
+            off = 4 + body[3]
+        else:                                                      # DHE / SRP-less: three 2-byte-length integers
+            o = 0
+            try:
+                for _ in range(3):
+                    o += 2 + ((body[o] << 8) | body[o + 1])
+                off = o
+            except IndexError:
+                off = None
+        if off is not None and off + 2 <= len(body):
+            old = bytes(body[off:off + 2]).hex()
+            body[off:off + 2] = bytes.fromhex(mut[1])
+            return [RawMsg(22, hs_wrap(data[0], body))], 'hs%d:set-sigalg:%s->%s' % (data[0], old, mut[1])
+        return [RawMsg(22, bytes(data))], 'hs%d:set-sigalg:none' % data[0]
     if name == 'set-prefix' and ct == 22 and len(data) >= 4:
         # overwrite the first bytes of the handshake body with the given value (targeted value-level mutation)
         pre = bytes.fromhex(mut[1])
@@ -1133,6 +1182,54 @@ def pha_cases(rng, profiles):
     return out
 
 
+def sigalg_ids(quick):
+    """signature algorithm identifiers a peer can put on the wire: every SignatureScheme value of tlslite, every
+    (hash 1..6, signature 1..3) pair of TLS 1.2, and some that name nothing"""
+    from tlslite.constants import SignatureScheme
+    ids = set()
+    for k, v in vars(SignatureScheme).items():
+        if isinstance(v, tuple) and len(v) == 2 and all(isinstance(x, int) for x in v):
+            ids.add(v)
+    for h in range(1, 7):
+        for sg in (1, 2, 3):
+            ids.add((h, sg))
+    ids |= {(0, 0), (0, 1), (8, 0x63), (0xff, 0xff), (2, 0), (4, 0), (4, 4), (8, 0)}
+    ids = sorted(ids)
+    if quick:
+        keep = [(4, 1), (4, 3), (4, 2), (8, 4), (8, 9), (8, 7), (8, 8), (2, 1), (2, 3), (2, 2), (1, 1), (6, 3), (8, 26), (0, 0)]
+        ids = [i for i in keep]
+    return ids
+
+
+SIGALG_TARGETS = [
+    # (flavour, role under test, handshake type carrying the peer's signature algorithm)
+    ('tls12-ecdhe', 'client', 12), ('tls12-ecdsa', 'client', 12), ('tls12-dhe', 'client', 12), ('tls12-dhe-dsa', 'client', 12),
+    ('tls12-ecdhe-ed25519', 'client', 12), ('tls12-ecdhe-rsapss', 'client', 12),
+    ('tls12-clientauth', 'server', 15), ('tls12-clientauth-ecdsa', 'server', 15), ('tls12-clientauth-ed25519', 'server', 15),
+    ('tls12-clientauth-dsa', 'server', 15),
+    ('tls13-rsa', 'client', 15), ('tls13-ecdsa', 'client', 15), ('tls13-ed25519', 'client', 15),
+    ('tls13-clientauth', 'server', 15), ('tls13-clientauth-ecdsa', 'server', 15), ('tls13-clientauth-ed25519', 'server', 15),
+]
+
+
+def sigalg_cases(rng, profiles, quick):
+    """cross product: every signature algorithm id x every local/peer key family x both roles x
+    ServerKeyExchange / CertificateVerify (TLS 1.2) / CertificateVerify (TLS 1.3)"""
+    names = [f['name'] for f in get_flavours()]
+    out = []
+    for fname, role, t in SIGALG_TARGETS:
+        fi = names.index(fname)
+        base, pts = profiles.get((fi, role), ({}, []))
+        hit = [p for p in pts if p[0] == 'msg' and p[2] == 22 and p[3] == t and p[4] == 'hs']
+        if not hit:
+            continue
+        for n, (h, sg) in enumerate(sigalg_ids(quick)):
+            out.append(dict(flavour=fi, role=role, seed=rng.randrange(1 << 30), level='msg',
+                            mut=('set-sigalg', '%02x%02x' % (h, sg)), phase='hs', target=hit[0][1], tsel=0.0, mem=False,
+                            close_socket=(n % 2 == 0), base=dict(calls=base.get('calls', 0), peak=base.get('peak', 0))))
+    return out
+
+
 def cv_scheme_cases(rng, profiles):
     """server CertificateVerify (TLS 1.3) whose signature scheme is not a SignatureScheme value: hash byte
     'none' (0), unknown hash (99, 255), intrinsic hash with unknown algorithm, sha1 with unknown algorithm"""
@@ -1233,22 +1330,46 @@ class HangTimeout(BaseException):
     `except Exception` handlers of the code under test cannot swallow it)"""
 
 
-HANG_SECONDS = 60
+# Watchdog.  Never wall-clock (a busy machine must not look like a hang): an interval timer on the CPU time of THIS
+# process (ITIMER_VIRTUAL) ticks every HANG_TICK CPU-seconds; a tick on which the exchange has made no progress
+# (no byte written to or consumed from either in-memory socket) counts; HANG_TICKS such ticks in a row = hang.
+# A reported hang is first confirmed by re-running the case alone with three times the allowance.
+HANG_TICK = 10
+HANG_TICKS = 6
+HANG_SECONDS = HANG_TICK * HANG_TICKS          # CPU seconds without progress
+_PROGRESS = [None]                             # set by the running case: () -> progress signature
 
 
 def with_watchdog(fn, *args, **kw):
     import signal
-    seconds = kw.pop('_seconds', HANG_SECONDS)
+    budget = kw.pop('_seconds', None)            # CPU-second allowance for callers without a progress signature
+    ticks = kw.pop('_ticks', None) or (HANG_TICKS if budget is None else max(1, int(budget // HANG_TICK)))
+    state = {'last': None, 'still': 0}
+    _PROGRESS[0] = None
 
-    def on_alarm(signum, frame):
-        raise HangTimeout('no return within %d s' % seconds)
-    old = signal.signal(signal.SIGALRM, on_alarm)
-    signal.setitimer(signal.ITIMER_REAL, seconds)
+    def on_tick(signum, frame):
+        pf = _PROGRESS[0]
+        sig = None
+        if pf is not None:
+            try:
+                sig = pf()
+            except Exception:  # noqa
+                sig = None
+        if sig is not None and sig != state['last']:
+            state['last'] = sig
+            state['still'] = 0
+            return
+        state['still'] += 1
+        if state['still'] >= ticks:
+            raise HangTimeout('no progress during %d CPU-seconds of this process' % (ticks * HANG_TICK))
+    old = signal.signal(signal.SIGVTALRM, on_tick)
+    signal.setitimer(signal.ITIMER_VIRTUAL, HANG_TICK, HANG_TICK)
     try:
         return fn(*args, **kw)
     finally:
-        signal.setitimer(signal.ITIMER_REAL, 0)
-        signal.signal(signal.SIGALRM, old)
+        signal.setitimer(signal.ITIMER_VIRTUAL, 0)
+        signal.signal(signal.SIGVTALRM, old)
+        _PROGRESS[0] = None
 
 
 def worker(case):
@@ -1256,18 +1377,25 @@ def worker(case):
         mem = case.get('mem', False)
         try:
             r = with_watchdog(run_case, case, mem=mem)
-        except HangTimeout as e:
+        except HangTimeout:
             sys.setprofile(None)
             if tracemalloc.is_tracing():
                 tracemalloc.stop()
-            fn, line = hang_frame(e)
-            name = get_flavours()[case['flavour']]['name']
-            return dict(outcome=('Hang', fn), peer=None, applied=True, what='(watchdog)', bytes_in=0, calls=0, peak=0,
-                        closed=False, resumable=False, n_msgs=0, n_recs=0,
-                        problems=[('hang:%s:%s' % (fn, _norm(line)),
-                                   'the call did not return within %d s: spinning in %s: `%s` (flavour %s)'
-                                   % (HANG_SECONDS, fn, line, name))],
-                        case={k: v for k, v in case.items() if k != 'phase_now'})
+            try:
+                # confirm alone, with three times the allowance, before calling it a hang
+                r = with_watchdog(run_case, dict(case), mem=False, _ticks=3 * HANG_TICKS)
+                r.setdefault('notes', []).append('slow: first attempt exceeded the no-progress allowance, second attempt returned')
+            except HangTimeout as e:
+                sys.setprofile(None)
+                fn, line = hang_frame(e)
+                name = get_flavours()[case['flavour']]['name']
+                return dict(outcome=('Hang', fn), peer=None, applied=True, what='(watchdog)', bytes_in=0, calls=0, peak=0,
+                            closed=False, resumable=False, n_msgs=0, n_recs=0,
+                            problems=[('hang:%s:%s' % (fn, _norm(line)),
+                                       'the call did not return and moved no byte during %d CPU-seconds (confirmed by a second '
+                                       'run alone with %d): spinning in %s: `%s` (flavour %s)'
+                                       % (HANG_SECONDS, 3 * HANG_SECONDS, fn, line, name))],
+                            case={k: v for k, v in case.items() if k != 'phase_now'})
         b = case['base']
         limit_calls = WORK_C * r['bytes_in'] + 2 * b['calls'] + WORK_C0
         import re
